@@ -209,6 +209,20 @@ chk("C15",
     "machine-checked proof in Coq (Q arithmetic; permutation invariants of the split loop) + formula/structure extraction/exact-rational M-step correspondence",
     "DESIGN.md section 6, C15")
 
+chk("C19",
+    "Coq/MathComp theorems over any real field, for every degrees-of-freedom oracle that reads the Mahalanobis "
+    "distances only: one ECME step commutes with x -> xA+b for every invertible A and every b (nu unchanged, scale -> "
+    "A^T Sigma A, location -> mu A + b); the new location is a convex combination of the rows (inside the bounding box "
+    "coordinate-wise); the new scale is symmetric with non-negative quadratic form; the weights are positive. Tie: "
+    "Gen.Student (loop-body formulas, what the nu update and the stopping test read, initial values, dof fallback in "
+    "both ModeStatistics constructors, the root bracket) + Link; an executable exact-rational twin of the step "
+    "replayed against fit_mvstud(max_iter=1); metamorphic fit(g(X)) = g(fit(X)) over scalings 1e-6..1e6, translations, "
+    "permutations; well-posedness on Gaussian/t/skewed/contaminated data; recovery on large t samples; fallback with a stubbed fit.",
+    "Trusted: Coq kernel/vm_compute; python extractor/harness; the digamma root (bisect) is an oracle; equivariance of the "
+    "initial median/covariance and parameter recovery are checked numerically only; float rounding idealised.",
+    "machine-checked proof in Coq/MathComp (matrix algebra over real fields) + structure extraction/exact-rational step correspondence + metamorphic tests",
+    "DESIGN.md section 6, C19")
+
 for pid in [f"C{i:02d}" for i in range(1, 21)]:
     if pid not in CHECKS:
         NA[pid] = "check not built yet in this session (planned in DESIGN.md section 6); not claimed"
